@@ -465,3 +465,29 @@ package tax
 //@   modifies *
 //@   at-call Combo).calculate assert [date] $arg1 == tc.Country && $arg2 == tc.Tags && $arg3 == tc.Date
 //@   at-call Amount).RescaleUp assert [working] $arg1 == tc.zero.exp + 2
+//
+// ---- C20: negating a summary. Decided here at the level of the categories: amount and
+// precise amount change sign, every category object and every category surcharge record is a
+// fresh one (nothing is shared with the operand, which is not written), the sums change sign.
+// That the surcharge figures and the rows inside the categories change sign is written in
+// /verif/contracts/wip and does not discharge (cell contents under allocation: undecided).
+//@ pred catHeadNeg(a *CategoryTotal, b *CategoryTotal) bool = b.Code == a.Code && b.Retained == a.Retained && b.Amount == num.neg(a.Amount) && b.amount == num.neg(a.amount) && (a.Surcharge == nil ==> b.Surcharge == nil) && (a.Surcharge != nil ==> b.Surcharge != nil && fresh(b.Surcharge))
+//@ pred catHeadSame(a *CategoryTotal, b *CategoryTotal) bool = b.Code == a.Code && b.Retained == a.Retained && b.Amount == a.Amount && b.amount == a.amount && (a.Surcharge == nil ==> b.Surcharge == nil) && (a.Surcharge != nil ==> b.Surcharge != nil && fresh(b.Surcharge))
+//@ pred rowsFresh(a *CategoryTotal, b *CategoryTotal) bool = len(b.Rates) == len(a.Rates) && (forall j int :: 0 <= j && j < len(a.Rates) ==> b.Rates[j] != nil && fresh(b.Rates[j]))
+//@ func (t *Total) Negate() (nt)
+//@   requires t != nil ==> wfTotal(t)
+//@   use Total).Clone shape,deep,distinct
+//@   ensures [nil] t == nil ==> nt == nil
+//@   ensures [shape] t != nil ==> nt != nil && fresh(nt) && nt.Sum == num.neg(t.Sum) && nt.sum == num.neg(t.sum) && len(nt.Categories) == len(t.Categories)
+//@   ensures [categories] t != nil ==> (forall i int :: 0 <= i && i < len(t.Categories) ==> nt.Categories[i] != nil && fresh(nt.Categories[i]) && catHeadNeg(t.Categories[i], nt.Categories[i]))
+//@   loop 1 invariant nt != nil && fresh(nt) && len(nt.Categories) == len(t.Categories) && fresh(nt.Categories)
+//@   loop 1 invariant forall i int :: 0 <= i && i < len(t.Categories) ==> nt.Categories[i] != nil && fresh(nt.Categories[i]) && rowsFresh(t.Categories[i], nt.Categories[i])
+//@   loop 1 invariant forall i int, k int :: 0 <= i && i < k && k < len(t.Categories) ==> nt.Categories[i] != nt.Categories[k]
+//@   loop 1 invariant forall i int :: 0 <= i && i < idx ==> catHeadNeg(t.Categories[i], nt.Categories[i])
+//@   loop 1 invariant forall i int :: idx <= i && i < len(t.Categories) ==> catHeadSame(t.Categories[i], nt.Categories[i])
+//@   loop 2 invariant nt != nil && fresh(nt) && len(nt.Categories) == len(t.Categories) && fresh(nt.Categories)
+//@   loop 2 invariant forall i int :: 0 <= i && i < len(t.Categories) ==> nt.Categories[i] != nil && fresh(nt.Categories[i]) && rowsFresh(t.Categories[i], nt.Categories[i])
+//@   loop 2 invariant forall i int, k int :: 0 <= i && i < k && k < len(t.Categories) ==> nt.Categories[i] != nt.Categories[k]
+//@   loop 2 invariant forall i int :: 0 <= i && i < idx1 ==> catHeadNeg(t.Categories[i], nt.Categories[i])
+//@   loop 2 invariant catHeadNeg(t.Categories[idx1], nt.Categories[idx1])
+//@   loop 2 invariant forall i int :: idx1 < i && i < len(t.Categories) ==> catHeadSame(t.Categories[i], nt.Categories[i])
